@@ -252,7 +252,7 @@ class Topo (object):
 
   def disconnect (self, i):
     sp = self.sw.pop(i)
-    sp.sock.close()
+    sp.worker.close()
     self.w.run()
 
   def wire (self, i, p, j, q):
@@ -296,7 +296,7 @@ class Topo (object):
 
   def close (self):
     for i in list(self.sw):
-      try: self.sw[i].sock.close()
+      try: self.sw[i].worker.close()
       except Exception: pass
     self.sw.clear()
     self.w.run()
